@@ -1,13 +1,18 @@
 package world
 
 import (
+	"strconv"
 	"strings"
+	"time"
 
 	"github.com/boz/kcache/filter"
 	"github.com/boz/kcache/nsname"
 	metav1 "k8s.io/apimachinery/pkg/apis/meta/v1"
 	"k8s.io/apimachinery/pkg/labels"
 )
+
+// idBuf is the one id buffer every NSName filter of the harness is built from.
+var idBuf = make([]nsname.NSName, 0, 16)
 
 // FilterSpec is a small term language for the filters used in scenarios.
 type FilterSpec struct {
@@ -19,7 +24,7 @@ type FilterSpec struct {
 
 func (fs FilterSpec) String() string {
 	switch fs.Op {
-	case "labels", "fn", "nsname", "labels2", "nsnames", "lsel", "sel":
+	case "labels", "fn", "nsname", "labels2", "nsnames", "lsel", "sel", "rvparity", "slow":
 		return fs.Op + "(" + fs.K + "," + fs.V + ")"
 	case "not", "and", "or":
 		s := fs.Op + "("
@@ -48,7 +53,26 @@ func (fs FilterSpec) Build() filter.Filter {
 	case "labels":
 		return filter.Labels(map[string]string{fs.K: fs.V})
 	case "nsname":
-		return filter.NSName(nsname.New(fs.K, fs.V))
+		// the id list is built in a buffer the caller reuses for its next filter:
+		// a constructor has to copy what it keeps
+		idBuf = append(idBuf[:0], nsname.New(fs.K, fs.V))
+		return filter.NSName(idBuf...)
+	case "slow":
+		// a user filter that costs time: V microseconds (of the simulated clock)
+		// per object, accepts everything
+		us, _ := strconv.Atoi(fs.V)
+		return filter.FN(func(o metav1.Object) bool {
+			time.Sleep(time.Duration(us) * time.Microsecond)
+			return true
+		})
+	case "rvparity":
+		// a user filter that looks at something other than labels and names:
+		// its verdict flips with every update of the object
+		want := fs.V == "odd"
+		return filter.FN(func(o metav1.Object) bool {
+			rv := o.GetResourceVersion()
+			return rv != "" && (rv[len(rv)-1]-'0')%2 == 1 == want
+		})
 	case "labels2":
 		// two label keys at once (V = "v1|v2" for app and tier); "|" alone = the empty match
 		m := map[string]string{}
@@ -63,13 +87,13 @@ func (fs FilterSpec) Build() filter.Filter {
 		return filter.Labels(m)
 	case "nsnames":
 		// several ids: V = "ns/name,ns/name,..." (an empty name selects the namespace)
-		var ids []nsname.NSName
+		idBuf = idBuf[:0]
 		for _, id := range strings.Split(fs.V, ",") {
 			if p := strings.SplitN(id, "/", 2); len(p) == 2 {
-				ids = append(ids, nsname.New(p[0], p[1]))
+				idBuf = append(idBuf, nsname.New(p[0], p[1]))
 			}
 		}
-		return filter.NSName(ids...)
+		return filter.NSName(idBuf...)
 	case "lsel":
 		// LabelSelector: matchLabels {K: V} plus, if V contains "|", an In
 		// expression over the alternatives instead
